@@ -98,7 +98,7 @@ fn tagged_list(r: &mut Rng) -> (Vec<String>, gen::Req) {
 
 pub fn run(ctx: &mut Ctx) {
     let sub = "seq";
-    let cases = ctx.n(150_000, 2_000_000);
+    let cases = ctx.n(150_000, 8_000_000);
     let resdefs = standard_resources();
     let res = ResModel { defs: &resdefs };
     for idx in 0..cases {
